@@ -118,6 +118,12 @@ func (db *SingleBucketBackend) ListBucket(bucket string, prefix *gofakes3.Prefix
 }
 
 func (db *SingleBucketBackend) getBucketWithFilePrefixLocked(bucket string, prefixPath, prefixPart string) (*gofakes3.ObjectList, error) {
+	if prefixPath != "" && !validObjectKey(prefixPath) {
+		// No key has an empty, "." or ".." segment, and the filesystem would
+		// resolve such a prefix to another directory.
+		return gofakes3.NewObjectList(), nil
+	}
+
 	dirEntries, err := afero.ReadDir(db.fs, filepath.FromSlash(prefixPath))
 	if err != nil && prefixPath != "" {
 		// The prefix names a directory that does not exist (or a file): no key
